@@ -4,6 +4,16 @@ SHAPE_NOTE = ("Container shapes in the typing context are fixed and small while 
               "(floats as reals); pyvc itself is trusted (cross-checked against CPython on solver-generated inputs each run).")
 
 META = {
+    "C12": {
+        "text": "Failure side proved on the real main_driver / non_trivial (callees mocked in a ghost call trace, each "
+                "allowed to raise): the three output writers are reached exactly once each, only after check_files, "
+                "check_options, get_molecule, setup_molecule, set_termini and the whole pipeline returned, and on no path on "
+                "which an exception escapes; check_options rejects pH outside [0,14] and neutral termini without PARSE; a "
+                "non-integral total charge raises. The success side (every well-formed structure is processed) is not "
+                "decidable by contracts and is only sampled by the X tables (known finding D12).",
+        "note": "Mocked callees: their own behaviour is covered by the other properties' contracts; that print_pqr's write "
+                "loop cannot fail half-way is not proved (file system external). " + SHAPE_NOTE,
+    },
     "C07": {
         "text": "Proved (layout logic): pdb.ATOM / HETATM read back every field of a PDB coordinate record from its columns, "
                 "also for records cut after the coordinates and CRLF line ends; main.drop_water removes exactly the water "
